@@ -29,7 +29,7 @@ RULE = ("Hypothesis draws a separable sum of singular primitives (abs, sqrt, log
         "vectorised build must return the same array as the long-hand build.  Non-trivial = the same array "
         "has a singular entry and a regular non-zero entry."
         '  Also: every term may carry a scale factor c*S; every callable is evaluated twice at the same point (results must be identical); Hessian diagonal entries whose textbook second derivative is infinite must be +/-1e16.')
-BUDGET = {"quick": {"workers": 16, "examples": 250}, "thorough": {"workers": 16, "examples": 6000}}
+BUDGET = {"quick": {"workers": 16, "examples": 500}, "thorough": {"workers": 16, "examples": 6000}}
 ASSUMPTIONS = ["textbook derivative formulas evaluated in IEEE double arithmetic define undefined (NaN) vs unbounded (inf)"]
 MANIFEST = {
  "technique": "property-based testing (Hypothesis): singular-point mixture against sanitised textbook derivatives; vectorised vs long-hand differential",
